@@ -9,10 +9,19 @@ import ast
 from .ordertype import Unsupported
 from .pysrc import dotted
 
-SAFE = {"print": lambda *a, **k: None, "list": list, "range": range, "sum": sum, "int": int, "float": float, "str": str, "bool": bool, "len": len, "isinstance": isinstance, "abs": abs, "repr": repr, "type": type}
+SAFE = {"hasattr": hasattr, "getattr": getattr, "dict": dict, "zip": zip, "tuple": tuple, "set": set, "sorted": sorted, "max": max,
+        "min": min, "any": any, "all": all, "print": lambda *a, **k: None, "list": list, "range": range, "sum": sum, "int": int, "float": float, "str": str, "bool": bool, "len": len, "isinstance": isinstance, "abs": abs, "repr": repr, "type": type}
 EXC = {"ValueError": ValueError, "TypeError": TypeError, "KeyError": KeyError, "AttributeError": AttributeError, "Exception": Exception,
        "OverflowError": OverflowError}
 TYPES = {"str": str, "int": int, "float": float, "bool": bool, "list": list, "tuple": tuple, "dict": dict}
+
+
+class _Break(Exception):
+    pass
+
+
+class _Continue(Exception):
+    pass
 
 
 class _Return(Exception):
@@ -154,13 +163,24 @@ class TinyExec:
                             env[e.id] = v_
                     else:
                         raise Unsupported("for target")
-                    self.run(st.body, env, so)
+                    try:
+                        self.run(st.body, env, so)
+                    except _Continue:
+                        continue
+                    except _Break:
+                        break
+                else:
+                    self.run(st.orelse, env, so)
+            elif isinstance(st, ast.Break):
+                raise _Break()
+            elif isinstance(st, ast.Continue):
+                raise _Continue()
             elif isinstance(st, (ast.Import, ast.ImportFrom)):
                 raise Unsupported("import inside evaluated code")
             elif isinstance(st, ast.Try):
                 try:
                     self.run(st.body, env, so)
-                except _Return:
+                except (_Return, _Break, _Continue):
                     raise
                 except Unsupported:
                     raise
@@ -230,6 +250,9 @@ class TinyExec:
             return {self.ev(k, env, so): self.ev(v, env, so) for k, v in zip(n.keys, n.values)}
         if isinstance(n, ast.List):
             return [self.ev(e, env, so) for e in n.elts]
+        if isinstance(n, ast.BinOp) and isinstance(n.op, (ast.Div, ast.Pow)):
+            a_, b_ = self.ev(n.left, env, so), self.ev(n.right, env, so)
+            return a_ / b_ if isinstance(n.op, ast.Div) else a_ ** b_
         if isinstance(n, ast.BinOp) and isinstance(n.op, (ast.Add, ast.Sub, ast.Mult, ast.Mod)):
             a_, b_ = self.ev(n.left, env, so), self.ev(n.right, env, so)
             if isinstance(n.op, ast.Mod):
@@ -271,6 +294,8 @@ class TinyExec:
                     kwargs[k.arg] = self.ev(k.value, env, so)
             if d in self.stubs:
                 return self.stubs[d](*args, **kwargs)
+            if isinstance(n.func, ast.Name) and d in env and callable(env[d]):
+                return env[d](*args, **kwargs)
             if d in SAFE:
                 return SAFE[d](*args, **kwargs)
             if d == "enumerate":
